@@ -379,32 +379,30 @@ def _agreement(ctx, m, gates):
 def _entry_paths(ctx, m):
     F = 'hszinc/grid.py'
     init = m.func('grid', 'Grid.__init__')
-    texts = [norm(x) for x in walk_no_nested(init) if isinstance(x, (ast.Assign, ast.Expr))]
-
-    def need(rule, text_alts, what, wit):
-        if any(t in texts for t in text_alts):
-            ctx.ob(rule, what, True, '%s:%d' % (F, init.lineno))
-            return True
-        ctx.violation(rule, '%s::Grid.__init__' % F, text_alts[0], wit, 'missing: %s' % what, file=F, line=init.lineno,
-                      engine='E7')
-        return False
-
-    need('C10.D2', ['self.metadata = MetadataObject(validate_fn=self._detect_or_validate)'],
-         'grid metadata is a MetadataObject wired to detect-or-validate',
-         'grid.metadata["x"] = [1] on a 2.0 grid is stored without refusal/upgrade')
-    need('C10.D2', ['mo = MetadataObject(validate_fn=self._detect_or_validate)'],
-         'constructor column metadata objects are wired to detect-or-validate',
-         'Grid(version="2.0", columns={"a": {"x": [1]}}) is accepted')
-    need('C10.D2', ['mo.extend(col_meta)'], 'constructor column metadata is stored through the validating extend()',
-         'Grid(version="2.0", columns={"a": {"x": NA}}) is accepted')
-    need('C10.D2', ['self.metadata.update(metadata.items())', 'self.metadata.extend(metadata)',
-                    'self.metadata.extend(metadata.items())'],
-         'constructor metadata is stored through the validating container',
-         'Grid(version="2.0", metadata={"x": [1]}) is accepted')
-    ok_col = need('C10.D2', ['self.column = SortableDict(validate_fn=self._validate_column)'],
-                  'the column map validates what is stored into it',
-                  'g = Grid(version="2.0"); g.column["a"] = {"x": [1, 2]} is accepted: a 2.0 grid carries a list '
-                  '(this is also the path the JSON reader uses for column metadata)')
+    from .. import match
+    sc = match.Script(ctx, 'C10.D2', [init], F, '%s::Grid.__init__' % F, engine='E7')
+    sc.need(['self.metadata = MetadataObject(validate_fn=self._detect_or_validate)'],
+            'grid metadata is a MetadataObject wired to detect-or-validate',
+            'grid.metadata["x"] = [1] on a 2.0 grid is stored without refusal/upgrade',
+            bad=['self.metadata = MetadataObject()', 'self.metadata = SortableDict()', 'self.metadata = {}'])
+    sc.need(['_R_mo = MetadataObject(validate_fn=self._detect_or_validate)'],
+            'constructor column metadata objects are wired to detect-or-validate',
+            'Grid(version="2.0", columns={"a": {"x": [1]}}) is accepted', bad=['_R_mo = MetadataObject()'])
+    sc.need(['_R_mo.extend(_R_colmeta)', '_R_mo.update(_R_colmeta)'],
+            'constructor column metadata is stored through the validating extend()',
+            'Grid(version="2.0", columns={"a": {"x": NA}}) is accepted')
+    sc.need(['self.column.add_item(_R_colid, _R_mo)', 'self.column[_R_colid] = _R_mo'],
+            'the validated column metadata object is what is stored for the column',
+            'Grid(version="2.0", columns={"a": {"x": NA}}) stores the unvalidated metadata')
+    sc.need(['self.metadata.update(_R_metadata.items())', 'self.metadata.extend(_R_metadata)',
+             'self.metadata.extend(_R_metadata.items())', 'self.metadata.update(_R_metadata)'],
+            'constructor metadata is stored through the validating container',
+            'Grid(version="2.0", metadata={"x": [1]}) is accepted')
+    ok_col = sc.need(['self.column = SortableDict(validate_fn=self._validate_column)'],
+                     'the column map validates what is stored into it',
+                     'g = Grid(version="2.0"); g.column["a"] = {"x": [1, 2]} is accepted: a 2.0 grid carries a list '
+                     '(this is also the path the JSON reader uses for column metadata)',
+                     bad=['self.column = SortableDict()', 'self.column = {}']) is not None
     if ok_col:
         try:
             vc = m.func('grid', 'Grid._validate_column')
